@@ -50,6 +50,9 @@ pub enum Item {
         /// whole function on one line: `def name(params): return 1`
         #[serde(default)]
         oneline: bool,
+        /// declared as `@pytest.fixture(name="<name>")` on a function called `<name>_impl`
+        #[serde(default)]
+        alias: bool,
     },
     /// `def test_<name>(params)` optionally decorated with usefixtures / indirect parametrize
     Test {
@@ -93,6 +96,7 @@ impl Item {
             doc: None,
             wrapped: false,
             oneline: false,
+            alias: false,
         }
     }
     pub fn scoped(name: &str, deps: &[&str], scope: Scope) -> Item {
@@ -281,9 +285,13 @@ impl Ws {
                         doc,
                         wrapped,
                         oneline,
+                        alias,
                     } => {
                         push(&mut out, "", &mut line);
                         let mut args = Vec::new();
+                        if *alias {
+                            args.push(format!("name=\"{}\"", name));
+                        }
                         if *scope != Scope::Function {
                             args.push(format!("scope=\"{}\"", scope.as_str()));
                         }
@@ -300,7 +308,8 @@ impl Ws {
                             );
                         }
                         let def_line = line;
-                        let mut s = format!("def {}(", name);
+                        let func_name = if *alias { format!("{}_impl", name) } else { name.clone() };
+                        let mut s = format!("def {}(", func_name);
                         let wrap = *wrapped && !deps.is_empty();
                         if wrap {
                             push(&mut out, &s, &mut line);
@@ -351,7 +360,7 @@ impl Ws {
                                 name: name.clone(),
                                 line: def_line,
                                 start: 4,
-                                end: 4 + name.len(),
+                                end: 4 + func_name.len(),
                                 end_line: def_line,
                                 yield_line: None,
                             });
@@ -374,7 +383,7 @@ impl Ws {
                             name: name.clone(),
                             line: def_line,
                             start: 4,
-                            end: 4 + name.len(),
+                            end: 4 + func_name.len(),
                             end_line: line - 1,
                             yield_line,
                         });
